@@ -1003,8 +1003,14 @@ class StateEngine(object):
         """
         has_terminated = any("terminated" in r for r in all_branch_results.values())
 
+        """
+        Iterate over a snapshot of the results. Cancelling a Task below runs
+        its callback, which collects the (Task.Terminated) result of that
+        branch and, when the results of the enclosing Map/Parallel state have
+        not been re-created yet after a restart, adds them to this dict.
+        """
         results_pending = False
-        for results in all_branch_results.values():
+        for results in list(all_branch_results.values()):
             if has_terminated:
                 result = results["results"]
                 event_ids = results["ids"]
